@@ -163,7 +163,7 @@ def r2_every_cycle(ctx, F):
             continue
         ok_avoid = err_blocks(f) | panic_blocks(f)
         w_rows = call_weight(f, ROW)
-        w_exec = call_weight(f, r"^miden_processor::operations::Process::execute_op$")
+        w_exec = summary_weight(F, f, r"^miden_processor::operations::Process::execute_op$")
         for bi, c, t in rows:
             total += 1
             ctx.inst(key=f.id + c, nontrivial=True)
@@ -202,7 +202,8 @@ def _callee_executes_op(F, callee):
     f = F.fns.get(callee)
     if not f:
         return False
-    return any(c.endswith("Process::execute_op") for bi, c, t in f.calls())
+    mm = count_on_paths(f, summary_weight(F, f, r"^miden_processor::operations::Process::execute_op$"), avoid=err_blocks(f) | panic_blocks(f))
+    return mm == (1, 1)
 
 
 def _count_until(f, start, weight, ends, avoid):
